@@ -1064,7 +1064,7 @@ class NamedVariables(UserDict):
                 Sum(
                     *(
                         f"nll_regul_{ind_var_name}_ind"
-                        for ind_var_name in self._latent_ind_vars
+                        for ind_var_name in sorted(self._latent_ind_vars)
                     )
                 )
             ),
